@@ -117,6 +117,7 @@ class Profile(object):
         self.script = None         # scripted stream (scripts.py) instead of the random walk
         self.p_odd = 0.0           # probability of an unusual string (ODD) wherever the client supplies one
         self.p_restart_after_retire = 0.0   # restart right after a command that retired a nameplate (C03: reincarnation)
+        self.burst = 0.25          # probability that the next event arrives within the same reactor turn (world._turn)
         self.__dict__.update(kw)
 
 
@@ -140,6 +141,7 @@ class Session(object):
         self.seed = seed
         self.cfg = cfg
         self.p = profile
+        self.burst = getattr(profile, "burst", 0)
         # local time zone and start instant of the server process (profile.tz: list of (zone, start in epoch seconds);
         # the case is picked by the seed): code that converts epoch seconds to local wall-clock time misbehaves
         # around daylight-saving transitions only
